@@ -162,6 +162,7 @@ func isLastAccess(v ssa.Value) bool {
 
 func checkC13(c *Ctx, r *Report) {
 	r.Decided = []string{
+		"R8 evictions started from a store run without the store's own shard lock (may-held set at the call has no shard lock), so no candidate is skipped because of the caller",
 		"R1 every call of evict is control-dependent on size >= limit where size is the backend's byte counter and the limit is read live (atomic/config read), not a constructor-time copy",
 		"R2 in evict's removal loop every removal is preceded, in the same iteration, by the exit test getCacheSize() <= target, and target is the limit × 0.8",
 		"R3 victims are sorted by descending priority (comparator compares second argument's priority with the first's) and the loop walks from the front; priority is non-decreasing in age since last access and in size",
@@ -172,6 +173,27 @@ func checkC13(c *Ctx, r *Report) {
 	}
 	r.NotDec = []string{"which entries actually remain (run-time populations)", "the 80 % arithmetic and weights as numbers", "eviction order among entries skipped because they are in use"}
 	li := BuildLocks(c)
+	// R8: a store that has to make room does so before it takes its own key's shard lock. The eviction only try-locks
+	// its candidates: with the shard lock held by the store itself every entry of that shard is skipped — the least
+	// recently used one included (a newer entry goes instead), and with a single shard nothing is evicted at all.
+	nStoreEv := 0
+	for _, f := range li.Fns {
+		if originPkgPath(f) != cachePkg {
+			continue
+		}
+		eachCall(f, func(call ssa.CallInstruction, n string) {
+			if !strings.HasSuffix(n, "cacheJanitor).evict") {
+				return
+			}
+			if strings.Contains(fnKey(f), "cacheJanitor") {
+				return // the periodic cycle
+			}
+			nStoreEv++
+			held := li.HeldMay(call.(ssa.Instruction))
+			r.Check(!held["S"], "C13.R8", fmt.Sprintf("%s: room is made before the key's shard lock is taken (#%d)", fnKey(f), nStoreEv), c.InstrPos(call), "no shard lock may be held at the eviction call", "the store evicts while holding its own key's shard lock "+held.String()+": the candidates of that shard cannot be try-locked and are skipped, so a more recently used entry is evicted in place of the least recently used one, and with lock_shards=1 a store over the limit evicts nothing and the response is never cached")
+		})
+	}
+	r.Floor("C13.R8", nStoreEv, 2, "evictions started from a store")
 
 	// ---- R1
 	nEv := 0
@@ -198,7 +220,15 @@ func checkC13(c *Ctx, r *Report) {
 					}
 				}
 			}
-			live := strings.Contains(ls, "Get(&") || strings.Contains(ls, "Read(&")
+			// the limit is read live (an atomic / config read), directly or inside a same-package helper
+			live := derivesFromDeep(limit, nil, func(v ssa.Value, _ dctx) bool {
+				c2, ok := v.(*ssa.Call)
+				if !ok {
+					return false
+				}
+				n2 := calleeName(c2)
+				return strings.Contains(n2, "utils/atomics.") && strings.HasSuffix(n2, ").Get") || strings.HasSuffix(n2, "config.ConfigProp).Read") || strings.HasSuffix(n2, ").Load")
+			})
 			r.Check(ok && live, "C13.R1", key, c.InstrPos(call), "guarded by byte counter >= "+ls, "evict("+ls+") is not guarded by 'stored bytes >= live limit' (facts: "+strings.Join(keysOf(fs), " ∧ ")+"): eviction below the limit, or against a stale copy of the limit")
 		})
 	}
